@@ -100,7 +100,7 @@ Definition local_clean_b (s : schema) : bool :=
   is_nil_b (s_pat_props s) && forallb (fun kp => is_none (s_default (snd kp))) (s_props s) && nodup_b (map fst (s_props s)) &&
   negb (match s_add_props s with Some (false, Some _) => true | _ => false end) &&
   (* composition *)
-  is_nil_b (s_one_of s) && is_nil_b (s_deps s) &&
+  is_nil_b (s_one_of s) && nodup_b (map fst (s_deps s)) &&
   (* numbers *)
   (match s_maximum s with Some m => fin_b m | None => true end) && (match s_minimum s with Some m => fin_b m | None => true end).
 
@@ -128,7 +128,7 @@ Proof.
     split; [apply nodup_b_sound; exact L4|].
     intros sa E. rewrite E in L3. discriminate. }
   split.
-  { split; [revert L2; destruct (s_one_of s); [reflexivity | discriminate] | revert L1; destruct (s_deps s); [reflexivity | discriminate]]. }
+  { split; [revert L2; destruct (s_one_of s); [reflexivity | discriminate] | apply nodup_b_sound; exact L1]. }
   split; [intros m E; rewrite E in L0; exact L0 | intros m E; rewrite E in L; exact L].
 Qed.
 
